@@ -74,6 +74,69 @@ theorem chainOK_valid {g : Graph} {r : Req} : ∀ {hops : List Hop} {cur amtIn t
     exact ⟨⟨hopOK_valid h1, ih.1⟩, fwdOK_valid h2, ih.2⟩
 
 
+/-! ### specification → checker -/
+
+theorem hopOK_complete {g : Graph} {r : Req} {last : Bool} {cur amtIn : Nat} {h : Hop}
+    (H : HopValid g r last cur amtIn h) : hopOK g r last cur amtIn h = true := by
+  obtain ⟨p, cap, hdp, h1, h2, h3, h4, h5, h6, h7, h8, h9⟩ := H
+  unfold hopOK
+  rw [hdp]
+  simp only [Bool.and_eq_true, Bool.or_eq_true, amtFits, decide_eq_true_eq, beq_iff_eq,
+    Bool.not_eq_eq_eq_not, Bool.not_true]
+  refine ⟨⟨⟨⟨⟨⟨?_, ⟨⟨h2, ?_⟩, ?_⟩⟩, ?_⟩, ?_⟩, ?_⟩, by simpa using h8⟩, by simpa using h9⟩
+  · by_cases hs : cur = r.self
+    · exact Or.inl hs
+    · exact Or.inr (by simp [h1 hs])
+  · cases hm : p.hasMax with
+    | false => exact Or.inl rfl
+    | true => exact Or.inr (h3 hm)
+  · by_cases hc : cap = 0
+    · exact Or.inl hc
+    · exact Or.inr (h4 hc)
+  · by_cases hs : cur = r.self
+    · right
+      cases hb : r.bwOf h.chan with
+      | none => rfl
+      | some b => simpa using h5 hs b hb
+    · left; simpa using hs
+  · by_cases hs : cur = r.self
+    · by_cases he : r.outChans = []
+      · left; right; simp [he]
+      · right; simpa using h6 hs he
+    · left; left; simpa using hs
+  · cases last with
+    | false => left; rfl
+    | true =>
+      right
+      cases hl : r.lastHop with
+      | none => rfl
+      | some l => simpa using h7 rfl l hl
+
+theorem fwdOK_complete {g : Graph} {prev : Nat} {hIn hOut : Hop} {amtIn tlIn : Nat}
+    (H : FwdValid g prev hIn hOut amtIn tlIn) : fwdOK g prev hIn hOut amtIn tlIn = true := by
+  obtain ⟨p, cap, hdp, h1, h2⟩ := H
+  unfold fwdOK
+  rw [hdp]
+  simp only [Bool.and_eq_true, decide_eq_true_eq]
+  exact ⟨h1, h2⟩
+
+theorem chainOK_complete {g : Graph} {r : Req} : ∀ {hops : List Hop} {cur amtIn tlIn : Nat},
+    HopsValid g r cur amtIn hops →
+    FeesValid g r.amt (r.height + r.finalDelta) cur amtIn tlIn hops →
+    chainOK g r cur amtIn tlIn hops = true
+  | [], _, _, _, H, _ => by simp [HopsValid] at H
+  | [h], cur, amtIn, tlIn, H, F => by
+    obtain ⟨h1, h2⟩ := H
+    obtain ⟨f1, f2, f3, f4⟩ := F
+    simp only [chainOK, Bool.and_eq_true, beq_iff_eq]
+    exact ⟨⟨⟨⟨⟨hopOK_complete h1, h2⟩, f1⟩, f2⟩, f3⟩, f4⟩
+  | h :: h' :: rest, cur, amtIn, tlIn, H, F => by
+    obtain ⟨h1, h2⟩ := H
+    obtain ⟨f1, f2⟩ := F
+    simp only [chainOK, Bool.and_eq_true]
+    exact ⟨⟨hopOK_complete h1, fwdOK_complete f1⟩, chainOK_complete h2 f2⟩
+
+
 /-! ### wrap-around elimination and `buildI` -/
 
 
